@@ -214,14 +214,19 @@ def run(ctx) -> None:
     sites = [s for s in sub.find_sites(fn, include_nested=False) if not sub.is_literal_key(s)]
     ctx.floor("C16.R5-anchored-substitution", len(sites), 1, "substitution sites in _compute_memoization_info")
     for s in sites:
-        check_site(ctx, "C16.R5-anchored-substitution", fn, s, "a declared reference",
-                   word_boundary_ok="keys are all declared references processed longest-first and the inserted text is "
-                                    "'<kind>:<hex digest>:<method>', which cannot contain a key after a non-word character")
+        # a plain \\b is NOT enough here although the keys are processed longest-first: two references of EQUAL length - the
+        # relative spelling 'ab:ref' of stage1.ab and 'stage0.ab:ref' when both producers are called ab - are ordered by
+        # declaration, and \\bab:ref\\b also matches inside 'stage0.ab:ref' (defect found through seed C15-2)
+        strong = check_site(ctx, "C16.R5-anchored-substitution", fn, s, "a declared reference")
         order = sub.loop_order(fn, s)
-        ok = order in ("longest-first", None)
-        ctx.ob("C16.R5-anchored-substitution", s.call, ok, "references are substituted longest first" if ok else
-               "references are substituted in an order that is not longest-first: the relative spelling can be replaced inside an absolute one",
-               construct=short(s.call, 80) + " <- longest-first loop")
+        # with whole-reference anchors (and inserted text '<kind>:<digest>:<method>' that is no reference) the order in which
+        # the references are processed cannot change the result; the longest-first order only matters for weaker anchors
+        ok = order in ("longest-first", None) or strong
+        ctx.ob("C16.R5-anchored-substitution", s.call, ok,
+               ("references are substituted longest first" if order in ("longest-first", None) else
+                "every reference is replaced as a whole, so the processing order is immaterial") if ok else
+               "references are substituted in an order that is not longest-first and not as whole references: the relative spelling "
+               "can be replaced inside an absolute one", construct=short(s.call, 80) + " <- order-independent")
 
     # ---------------- R6 -------------------------------------------------------------------------------
     iters = [n.iter for n in source.walk_own(info_to_hash) if isinstance(n, ast.For)]
